@@ -92,10 +92,7 @@ class PathCtx:
         self.engine = engine
         self.decisions = list(decisions)
         self.cursor = 0
-        self.solver = z3.Solver()
-        self.solver.set("timeout", timeout_ms or engine.timeout_ms)
-        if engine.seed:
-            self.solver.set("random_seed", engine.seed)
+        self.facts = []
         self.ax = T.Axioms()
         self.pc = []
         self.st = State()
@@ -120,24 +117,62 @@ class PathCtx:
         return self.cursor < len(self.decisions)
 
     # ---- assumptions -----------------------------------------------------------------------
-    def _axioms(self, f):
-        for a in self.ax.visit(f):
-            self.solver.add(a)
-
     def assume(self, f):
         f = tob(f)
         self._axioms(f)
-        self.solver.add(f)
+        self.facts.append(f)
         self.pc.append(f)
 
-    def check(self, *assumptions):
-        for a in assumptions:
-            self._axioms(a)
+    def _axioms(self, f):
+        for a in self.ax.visit(f):
+            self.facts.append(a)
+
+    def feasible(self, cond):
+        """Feasibility of a branch side under a short budget.  `unknown` counts as feasible:
+        that can only add paths (whose obligations are then checked like any other), never
+        hide one."""
+        self._axioms(cond)
         t0 = time.time()
-        r = self.solver.check(*assumptions)
+        s = z3.Solver()
+        s.set("timeout", self.engine.branch_timeout_ms)
+        s.add(self.facts)
+        s.add(cond)
+        r = s.check()
         self.engine.solver_time += time.time() - t0
         self.engine.solver_calls += 1
         return r
+
+    def solve(self, extra=(), want_model=False):
+        """One satisfiability query on a fresh solver (z3's incremental mode is unreliable on
+        string constraints: it hangs past its timeout on queries a fresh solver decides at once).
+        `unknown` is retried with other seeds."""
+        for e in extra:
+            self._axioms(e)
+        t0 = time.time()
+        res, model = z3.unknown, None
+        tries = ((self.engine.timeout_ms // 4, 0), (self.engine.timeout_ms // 2, 7),
+                 (self.engine.timeout_ms, 13))
+        for to, seed in tries:
+            s = z3.Solver()
+            s.set("timeout", max(1000, to))
+            s.set("random_seed", seed + self.engine.seed)
+            s.add(self.facts)
+            s.add(*extra)
+            res = s.check()
+            if res != z3.unknown:
+                if res == z3.sat and want_model:
+                    try:
+                        model = s.model()
+                    except z3.Z3Exception:
+                        model = None
+                break
+            self.engine.retries += 1
+        self.engine.solver_time += time.time() - t0
+        self.engine.solver_calls += 1
+        return res, model
+
+    def check(self, *assumptions):
+        return self.solve(assumptions)[0]
 
     # ---- branching -------------------------------------------------------------------------
     def branch(self, cond):
@@ -165,7 +200,7 @@ class PathCtx:
             if len(conds) == 2 and k == 1 and not feas:
                 feas.append(k)      # the path condition is satisfiable, so the other side is
                 break
-            r = self.check(c)
+            r = self.feasible(c)
             if r == z3.sat:
                 feas.append(k)
             elif r == z3.unknown:
@@ -230,25 +265,8 @@ class PathCtx:
             return
         formula = tob(formula)
         t0 = time.time()
-        neg = z3.Not(formula)
-        self._axioms(neg)
-        self.solver.push()
-        self.solver.add(neg)
-        r = self.solver.check()
-        model = None
-        if r == z3.sat:
-            try:
-                model = self.solver.model()
-            except z3.Z3Exception:
-                model = None
-        elif r == z3.unknown:
-            r2 = self.engine.second_opinion(self.solver)
-            if r2 is not None:
-                r = r2
-        self.solver.pop()
+        r, model = self.solve([z3.Not(formula)], want_model=True)
         dt = time.time() - t0
-        self.engine.solver_time += dt
-        self.engine.solver_calls += 1
         status = _status(r)
         ob = Obligation(name, status, dt, detail, list(self.decisions[:self.cursor]),
                         self.engine.model_summary(self, model) if model is not None else None,
@@ -260,9 +278,8 @@ class PathCtx:
         """An obligation that is violated on this (feasible) path by construction."""
         if self.replaying() or self.spec_mode:
             return
-        r = self.check()
+        r, model = self.solve([], want_model=True)
         status = _status(r)
-        model = self.solver.model() if r == z3.sat else None
         self.engine.record(Obligation(name, status, 0.0, detail, list(self.decisions[:self.cursor]),
                                       self.engine.model_summary(self, model) if model else None,
                                       site=site, props=tuple(props)))
@@ -297,6 +314,8 @@ class Engine:
         self.solver_time = 0.0
         self.solver_calls = 0
         self.unknown_branches = 0
+        self.branch_timeout_ms = 1500
+        self.retries = 0
         self.paths = 0
         self.current = None
         self.inlined = set()
